@@ -21,9 +21,10 @@ from props import extlib
 # the image-level theorem files and their theorems (for the COQ_PROPS / THEOREMS of the property plugins)
 COQ_PROPS = ['Props/C03img.v', 'Props/C04img.v', 'Props/C05img.v', 'Props/C07img.v']
 THEOREMS = {'Props/C03img.v': ['C03img_data', 'C03img_affine', 'C03img_slice', 'C03img_refuse', 'C03img_refuse_exists', 'C03img_never_crashes',
-                               'C03img_dim_argument', 'C03img_step_test'],
-            'Props/C04img.v': ['C04img_pieces', 'C04img_default_dim', 'C04img_ext_shape'],
-            'Props/C05img.v': ['C05img_split_merge', 'C05img_merge_split'],
+                               'C03img_dim_argument', 'C03img_step_test', 'C03w_lookup'],
+            'Props/C04img.v': ['C04img_pieces', 'C04img_default_dim', 'C04img_ext_shape', 'C04w_lookup',
+                               'C04img_split_models_agree', 'C04img_split_models_differ'],
+            'Props/C05img.v': ['C05img_split_merge', 'C05img_merge_split', 'C05w_split_merge'],
             'Props/C07img.v': ['C07img_merge', 'C07img_merge_sdim_partial', 'C07img_merge_sdim_refuted', 'C07img_split']}
 TRUSTED_BASE = ['coq/Wrapper/Model.v: hand model of NiftiWrapper.from_sequence / split / the final check_valid of __init__ '
                 '(tied to the code by the imgmerge / imgsplit / imgrt correspondence parts)',
